@@ -532,9 +532,36 @@ parse_params:
 		case ErrHdrMoreBytes:
 			// do nothing -> exit
 		default:
-			// some error -> do nothing (exit)
+			// this parameter could not be parsed (e.g. "x=a=b"): the
+			// branch sig must not depend on it => skip over it and
+			// keep looking for the branch in the rest of this via
+			if n := skipViaParam(viab, offs); n > offs {
+				offs = n
+				param.Reset()
+				continue
+			}
 		}
 		break
 	}
 	return sig, sigLen
+}
+
+// skipViaParam returns the offset of the first char after the next unquoted
+// ';' in viab[offs:], or -1 if the via body ends first (end of input or
+// unquoted ',').
+func skipViaParam(viab []byte, offs int) int {
+	quoted := false
+	for i := offs; i < len(viab); i++ {
+		switch c := viab[i]; {
+		case quoted && c == '\\':
+			i++ // skip over the escaped char
+		case c == '"':
+			quoted = !quoted
+		case !quoted && c == ';':
+			return i + 1
+		case !quoted && c == ',':
+			return -1
+		}
+	}
+	return -1
 }
